@@ -51,6 +51,28 @@ def worker(kp, job):
         if set(o.get('include') or CATS) >= set(CATS) and not o.get('exclude') and r['impl'] != base:
             r['viol'].append(('identity', f'include=all / exclude=nothing changes the export ({optprops.fmt(o)})', {'text': text, 'options': o}))
         records.append(r)
+    # one exporter and one options object serving every selection of this document (the selection re-assigned in
+    # between): each export must be the export a fresh exporter gives for that selection
+    if mode == 'big':
+        import kernpy.core.tokens as T
+        TC = kp.TokenCategory
+        exporter = kp.Exporter()
+        options = kp.ExportOptions(kern_type=kp.Encoding.eKern)
+        viol = []
+        trail = []
+        for o, r in zip(optsets, records):
+            inc = [TC[c] for c in o['include']] if 'include' in o else None
+            exc = [TC[c] for c in o['exclude']] if 'exclude' in o else None
+            trail.append(optprops.fmt(o))
+            try:
+                options.token_categories = T.TokenCategoryHierarchyMapper.valid(include=inc, exclude=exc)
+                got = 'ok:' + exporter.export_string(doc, options)
+            except Exception as e:
+                got = 'err:' + type(e).__name__
+            if got != r['impl'] and not viol:
+                viol.append(('session', f'one Exporter / one ExportOptions reused: selection {len(trail)} ({trail[-1]}) after {len(trail) - 1} '
+                             f'other selections exports something else than a fresh exporter', {'text': text, 'selections': list(trail)}))
+        records.append(engine.rec('session', viol=viol, kind='session', key=('session', text, str(optsets))))
     if idx % 13 == 0:
         records[0]['sample'] = {'text': text, 'options': optsets[0], 'export': records[0]['impl'][3:]}
     return {'records': records}
@@ -65,7 +87,7 @@ def run(chk):
     jobs += [(chk.seed, 1000 + i, 'big') for i in range(core.budget(chk, full, 50, 300))]
     chk.rule = ('documents x include/exclude: every single category as include and as exclude (37+37 per document), every '
                 'ordered (include, exclude) pair of single categories (37x37, spread over 8 documents each round), random larger '
-                'sets on full-size documents, plus the explicit identity selections; extended encoding; non-trivial = distinct '
+                'sets on full-size documents, plus the explicit identity selections, and the same selections served by ONE exporter and ONE options object; extended encoding; non-trivial = distinct '
                 '(text, options)')
     results = engine.pmap(worker, jobs)
     engine.settle(chk, results, model)
